@@ -21,9 +21,9 @@ T = {
             "Byte-level terminal definitions (ASCII fast paths included) are model-checked to keep the cursor on character boundaries over alphabets built to split sequences; every real cursor advance, failure offset, range and string is recorded and validated by TLC against BoundaryMonitor; H1 turns a violated unsafe precondition into a panic.", "memory safety proper is outside this technique; decided is the stated precondition discipline", "4 C04"),
     "C05": (MC, "TLC MemoInvisible/FreshCache over all memo subsets + real variant-vs-variant comparison + CacheMonitor trace validation",
             "For every subset of memoized rules TLC checks the cached machine against the cache-free reference; the real parsers of all variants must agree with each other and with the spec, in two call orders; recorded cache hits are validated against CacheMonitor (a hit must be explained by an entry of the same call).", "side-effect-free hooks as the property says; bounded shapes and inputs", "4 C05"),
-    "C06": (MC, "TLC Packrat/PackratBound invariants + PackratMonitor trace validation of probe calls (public API only)",
+    "C06": (MC, "TLC Packrat/PackratBound invariants + MemoTable (the cache protocol by itself; the protocol with an exit that skips the insert refuted; TLAPS proof in the thorough tier) + PackratMonitor trace validation of probe calls (public API only)",
             "Body evaluations are counted in every state of the model; on the real code they are observed through zero-length extern probes at the start of each memoized body and the recorded calls validated by TLC against PackratMonitor (second evaluation of a (rule, offset) pair is not an enabled action; global bound at the end).", "probe placement by the generator; bounded shapes, inputs include failing memoized rules and long nested inputs", "4 C06"),
-    "C07": (MC, "TLC GrowthResult (machine vs growth fixpoint), LrProgress, NoReentry + replay into real parsers with watchdog",
+    "C07": (MC, "TLC GrowthResult (machine vs growth fixpoint), LrProgress, NoReentry + LeftRecGrowth (the loop for any body: at most N + 2 evaluations, longest answer returned; the loop accepting equal length refuted; TLAPS proof in the thorough tier) + replay into real parsers with watchdog",
             "The Lr* actions mirror the generated growth loop; TLC compares the result with the growth fixpoint of the reference semantics and checks strict progress; real parsers are run on the same cases under a watchdog and acceptance, consumed length and left-nested tree compared.", "grammars inside the property's quantifier only; termination on real code is a watchdog", "4 C07"),
     "C08": (MC, "TLC WsPlacement (machine vs reference on whitespace alphabets) + replay into real parsers incl. ranges",
             "Whitespace skipping is a separate machine action at every atom call site; the reference skips per rule flag. All inputs over tokens, whitespace and near misses up to the bound, on model and real code.", "behavioural definition: an implementation hoisting skips but yielding the same results passes", "4 C08"),
